@@ -437,3 +437,139 @@ func genMix(c *vkit.Case) {
 	}
 	finish()
 }
+
+// bcastVsReader: k waiters are parked; then a Broadcast is issued at (almost) the same instant as
+// another operation that only reads the cond's state — a Signal, or a newcomer entering Wait (swept
+// spin offsets between the two). The Broadcast was called after the k waiters had released the
+// lock, so all k must return nil whatever the other operation does; and both calls must return.
+func bcastVsReader(c *vkit.Case) {
+	r := c.R
+	rnd := c.Rand
+	k := rnd.Range(2, 4)
+	reader := c.Index % 2 // 0: a concurrent Signal, 1: a newcomer entering Wait
+	total := k + 1
+	gl := &gateLocker{current: -1, gated: false, pert: vkit.NewPerturber(rnd.Split(), 3, 0.0)}
+	for i := 0; i < total; i++ {
+		gl.reached = append(gl.reached, make(chan struct{}))
+		gl.gates = append(gl.gates, make(chan struct{}))
+	}
+	cond := xsync.NewContextCond(gl)
+	var nils atomic.Int64
+	var wg sync.WaitGroup
+	ctx, cancel := context.WithCancel(context.Background())
+	defer cancel()
+	nctx, ncancel := context.WithCancel(context.Background())
+	defer ncancel()
+	start := func(i int, cx context.Context, oldWaiter bool) {
+		wg.Add(1)
+		go func() {
+			defer wg.Done()
+			gl.Lock()
+			gl.current = i
+			if err := cond.Wait(cx); err == nil {
+				if oldWaiter {
+					nils.Add(1)
+				}
+				gl.current = -1
+				gl.mu.Unlock()
+			}
+		}()
+	}
+	for i := 0; i < k; i++ {
+		start(i, ctx, true)
+		if !awaitChan(gl.reached[i]) {
+			r.Inconclusive("bcast-vs-reader: waiter did not enter")
+			cancel()
+			return
+		}
+	}
+	if !waitParked(k) {
+		r.Inconclusive("bcast-vs-reader: waiters not parked")
+		cancel()
+		return
+	}
+	var gate atomic.Bool
+	offA, offB := rnd.Intn(400), rnd.Intn(400)
+	calls := make(chan struct{})
+	go func() {
+		defer close(calls)
+		var cw sync.WaitGroup
+		cw.Add(2)
+		go func() {
+			defer cw.Done()
+			for !gate.Load() {
+			}
+			for i := 0; i < offA; i++ {
+			}
+			cond.Broadcast()
+		}()
+		go func() {
+			defer cw.Done()
+			for !gate.Load() {
+			}
+			for i := 0; i < offB; i++ {
+			}
+			if reader == 0 {
+				cond.Signal()
+			} else {
+				start(k, nctx, false)
+			}
+		}()
+		cw.Wait()
+	}()
+	gate.Store(true)
+	what := fmt.Sprintf("bcast-vs-reader: %d waiters parked; then a Broadcast and %s at the same instant", k, []string{"a Signal", "a newcomer entering Wait"}[reader])
+	if v, dump := vkit.Await(calls, vkit.AwaitOpts{Soft: 2 * time.Second, Gap: 200 * time.Millisecond, Hard: 60 * time.Second}); v == vkit.AwaitStuck {
+		c.Violation("call-stuck", what+": the Broadcast or the Signal never returned", map[string]any{"goroutines": dump})
+		return // the cond is wedged: nothing can be flushed
+	} else if v != vkit.AwaitDone {
+		r.Inconclusive("bcast-vs-reader: calls neither returned nor parked")
+		return
+	}
+	ok := func() bool { return int(nils.Load()) >= k }
+	t0 := time.Now()
+	for !ok() && time.Since(t0) < 2*time.Second {
+		time.Sleep(50 * time.Microsecond)
+	}
+	r.Eval(1)
+	r.Count("bcast-vs-reader", "rounds", 1)
+	if !ok() {
+		stuck := false
+		var dump string
+		hard := time.Now().Add(60 * time.Second)
+		for time.Now().Before(hard) && !ok() {
+			n1, p1, a := bvrSnap()
+			time.Sleep(200 * time.Millisecond)
+			n2, p2, b := bvrSnap()
+			if n1 > 0 && n1 == p1 && n2 == p2 && a == b && !ok() {
+				stuck, dump = true, b
+				break
+			}
+		}
+		if stuck {
+			c.Violation("broadcast-missed", fmt.Sprintf("%s: only %d of the %d parked waiters returned nil, the rest is parked in Wait for good", what, nils.Load(), k), map[string]any{"goroutines": dump})
+		} else if !ok() {
+			r.Inconclusive("bcast-vs-reader: neither woken nor provably parked")
+		}
+	}
+	ncancel()
+	cancel()
+	cond.Broadcast()
+	done := make(chan struct{})
+	go func() { wg.Wait(); close(done) }()
+	vkit.Await(done, vkit.AwaitOpts{Soft: 5 * time.Second, Gap: 200 * time.Millisecond, Hard: 30 * time.Second})
+}
+
+func bvrSnap() (n, parked int, raw string) {
+	for _, g := range vkit.Goroutines() {
+		if !g.In("main.bcastVsReader") || !inWait(g) {
+			continue
+		}
+		n++
+		raw += g.Raw + "\n\n"
+		if g.State == "select" {
+			parked++
+		}
+	}
+	return
+}
